@@ -963,9 +963,19 @@ fn exec_inner(world: &mut World, ctx: &Shared, op: &Op) -> String {
                 use specs::storage::GenericWriteStorage;
                 let mut st = world.write_storage::<T>();
                 let old = st.get(e).map(|c| c.val());
+                // odd handle slots: the `impl GenericWriteStorage for &mut WriteStorage` (a separate implementation of the
+                // same contract); even ones: the impl for `WriteStorage` itself
+                if *h % 2 == 1 {
+                    let mut r = &mut st;
+                    match GenericWriteStorage::get_mut_or_default(&mut r, e) {
+                        Some(acc) => { apply_access::<T, _>(acc, *derefs, *write); format!("some {}", old.unwrap_or(0)) }
+                        None => "none".into(),
+                    }
+                } else {
                 match GenericWriteStorage::get_mut_or_default(&mut st, e) {
                     Some(acc) => { apply_access::<T, _>(acc, *derefs, *write); format!("some {}", old.unwrap_or(0)) }
                     None => "none".into(),
+                }
                 }
             })
         }
@@ -1125,7 +1135,13 @@ fn exec_inner(world: &mut World, ctx: &Shared, op: &Op) -> String {
                 Op::Get(k, h) => {
                     if !is_reg(ctx, *k) { return "nostore".into(); }
                     let e = match resolve(ctx, *h) { Some(e) => e, None => return "skip".into() };
-                    with_kind!(*k, T => { let st = world.read_storage::<T>(); opt_val(GenericReadStorage::get(&st, e)) })
+                    // odd handle slots: the impls for references (`&ReadStorage`, `&WriteStorage`, `&mut WriteStorage`)
+                    with_kind!(*k, T => {
+                        if *h % 4 == 1 { let st = world.read_storage::<T>(); let r = &st; opt_val(GenericReadStorage::get(&r, e)) }
+                        else if *h % 4 == 3 { let st = world.write_storage::<T>(); let r = &st; opt_val(GenericReadStorage::get(&r, e)) }
+                        else if *h % 4 == 2 { let st = world.write_storage::<T>(); opt_val(GenericReadStorage::get(&st, e)) }
+                        else { let st = world.read_storage::<T>(); opt_val(GenericReadStorage::get(&st, e)) }
+                    })
                 }
                 Op::GetMut { k, h, derefs, write } => {
                     if !is_reg(ctx, *k) { return "nostore".into(); }
@@ -1133,9 +1149,17 @@ fn exec_inner(world: &mut World, ctx: &Shared, op: &Op) -> String {
                     with_kind!(*k, T => {
                         let mut st = world.write_storage::<T>();
                         let old = st.get(e).map(|c| c.val());
+                        if *h % 2 == 1 {
+                            let mut r = &mut st;
+                            match GenericWriteStorage::get_mut(&mut r, e) {
+                                Some(acc) => { apply_access::<T, _>(acc, *derefs, *write); format!("some {}", old.unwrap_or(-999)) }
+                                None => "none".into(),
+                            }
+                        } else {
                         match GenericWriteStorage::get_mut(&mut st, e) {
                             Some(acc) => { apply_access::<T, _>(acc, *derefs, *write); format!("some {}", old.unwrap_or(-999)) }
                             None => "none".into(),
+                        }
                         }
                     })
                 }
@@ -1144,7 +1168,9 @@ fn exec_inner(world: &mut World, ctx: &Shared, op: &Op) -> String {
                     let e = match resolve(ctx, *h) { Some(e) => e, None => return "skip".into() };
                     with_kind!(*k, T => {
                         let mut st = world.write_storage::<T>();
-                        match GenericWriteStorage::insert(&mut st, e, T::new(*v)) {
+                        let mut r = &mut st;
+                        let res = if *h % 2 == 1 { GenericWriteStorage::insert(&mut r, e, T::new(*v)) } else { GenericWriteStorage::insert(&mut st, e, T::new(*v)) };
+                        match res {
                             Ok(None) => "ins".into(),
                             Ok(Some(old)) => { let s = format!("rep {}", old.val()); log_pause(|| drop(old)); s }
                             Err(_) => "err".into(),
@@ -1157,7 +1183,8 @@ fn exec_inner(world: &mut World, ctx: &Shared, op: &Op) -> String {
                     with_kind!(*k, T => {
                         let mut st = world.write_storage::<T>();
                         let old = st.get(e).map(|c| c.val());
-                        log_pause(|| GenericWriteStorage::remove(&mut st, e));
+                        if *h % 2 == 1 { let mut r = &mut st; log_pause(|| GenericWriteStorage::remove(&mut r, e)); }
+                        else { log_pause(|| GenericWriteStorage::remove(&mut st, e)); }
                         match old { Some(v) => format!("some {}", v), None => "none".into() }
                     })
                 }
